@@ -4,21 +4,41 @@ From CppUVerif Require Import gen.Gen_Common C04_Model C04_Lists C04_Table C04_P
 Import ListNotations.
 Local Open Scope N_scope.
 
-(* ------------------------------------------------------------------ between tests: every record is the text's, stamped `enabled` *)
-Definition pure_recs (T0 : list stmt) : list node := rev (nodes SEnabled 0 1 T0).
+(* ------------------------------------------------------------------ between tests: every record is the text's; those made after the
+   plugin was created (T0) are stamped `enabled`, those made before (P0) `disabled` *)
+Section Pre.
+Variable P0 : list stmt.
+
+Definition en_recs (T0 : list stmt) : list node := rev (nodes SEnabled 0 (1 + allocs P0) T0).
+Definition dis_recs (T0 : list stmt) : list node := filter (notfreed T0) (rev (nodes SDisabled 0 1 P0)).
+Definition pure_recs (T0 : list stmt) : list node := en_recs T0 ++ dis_recs T0.
 
 Record Between (w : world) (T0 : list stmt) (a : astate) : Prop := mkBetween {
   bw_R : R (w_det w) a;
   bw_recs : a_recs a = pure_recs T0;
-  bw_period : a_period a = SEnabled; bw_stage : a_stage a = 0; bw_seq : a_seq a = 1 + allocs T0;
+  bw_period : a_period a = SEnabled; bw_stage : a_stage a = 0; bw_seq : a_seq a = 1 + allocs P0 + allocs T0;
   bw_ign : w_ignore w = false; bw_exp : w_expected w = 0; bw_err : w_err w = false }.
 
-Lemma pure_app T0 A :
-  rev (nodes SEnabled 0 (1 + allocs T0) A) ++ filter (notfreed A) (pure_recs T0) = pure_recs (T0 ++ A).
-Proof. unfold pure_recs. rewrite nodes_app, rev_app_distr, filter_rev. reflexivity. Qed.
+Lemma notfreed_app T0 A n : notfreed (T0 ++ A) n = notfreed T0 n && notfreed A n.
+Proof. unfold notfreed. rewrite existsb_app, negb_orb. reflexivity. Qed.
+Lemma filter_filter {A} (f g : A -> bool) l : filter f (filter g l) = filter (fun x => g x && f x) l.
+Proof. induction l as [|x l IH]; [reflexivity|]. cbn. destruct (g x); cbn; [destruct (f x)|]; rewrite IH; reflexivity. Qed.
 
-Lemma pure_enabled T0 n : In n (pure_recs T0) -> n_period n = SEnabled.
-Proof. unfold pure_recs. rewrite <- in_rev. apply nodes_period. Qed.
+Lemma pure_app T0 A :
+  rev (nodes SEnabled 0 (1 + allocs P0 + allocs T0) A) ++ filter (notfreed A) (pure_recs T0) = pure_recs (T0 ++ A).
+Proof.
+  unfold pure_recs, en_recs, dis_recs. rewrite nodes_app, rev_app_distr, <- filter_rev, filter_app, filter_filter, <- app_assoc.
+  f_equal. f_equal. apply filter_ext. intros n. symmetry. apply notfreed_app.
+Qed.
+
+Lemma en_enabled T0 n : In n (en_recs T0) -> n_period n = SEnabled.
+Proof. unfold en_recs. rewrite <- in_rev. apply nodes_period. Qed.
+Lemma dis_disabled T0 n : In n (dis_recs T0) -> n_period n = SDisabled.
+Proof. unfold dis_recs. intros H. apply filter_In in H. destruct H as [H _]. rewrite <- in_rev in H. eapply nodes_period; eassumption. Qed.
+Lemma pure_not_checking T0 n : In n (pure_recs T0) -> n_period n <> SChecking.
+Proof.
+  unfold pure_recs. rewrite in_app_iff. intros [H|H]; [rewrite (en_enabled _ _ H)|rewrite (dis_disabled _ _ H)]; discriminate.
+Qed.
 
 Lemma R_period d a p : R d a -> R (with_period d p) (mkA (a_recs a) p (a_stage a) (a_seq a)).
 Proof. unfold R. cbn. tauto. Qed.
@@ -43,13 +63,15 @@ Lemma count_split p X Y : (forall n, In n X -> applies p n = true) -> (forall n,
   count p (X ++ Y) = len X.
 Proof. intros HX HY. unfold count, len. rewrite filter_app, (filter_all _ X HX), (filter_none _ Y HY), app_nil_r. reflexivity. Qed.
 
-Lemma map_demote_enabled Y : (forall n, In n Y -> n_period n = SEnabled) -> map demote Y = Y.
+Lemma map_demote_other Y : (forall n, In n Y -> n_period n <> SChecking) -> map demote Y = Y.
 Proof.
-  intros H. rewrite <- (map_id Y) at 2. apply map_ext_in. intros n Hn. apply demote_id. rewrite (H n Hn). discriminate.
+  intros H. rewrite <- (map_id Y) at 2. apply map_ext_in. intros n Hn. apply demote_id. exact (H n Hn).
 Qed.
+Lemma not_checking_applies n : n_period n <> SChecking -> applies PChecking n = false.
+Proof. unfold applies. destruct (n_period n); congruence. Qed.
 
 Lemma post_spec w a X Y : R (w_det w) a -> a_recs a = X ++ Y ->
-  (forall n, In n X -> n_period n = SChecking) -> (forall n, In n Y -> n_period n = SEnabled) -> w_err w = false ->
+  (forall n, In n X -> n_period n = SChecking) -> (forall n, In n Y -> n_period n <> SChecking) -> w_err w = false ->
   let fire := negb (w_ignore w) && negb (w_expected w =? len X) && (w_fc0 w =? w_failures w) in
   exists d3 rep,
     post_action w = (mkW d3 false 0 (w_fc0 w) (if fire then w_failures w + 1 else w_failures w) false,
@@ -63,12 +85,12 @@ Proof.
   assert (Hleaks : t_total PChecking (d_tbl d1) = len X).
   { rewrite (count_perm _ _ _ HP). subst a1. cbn [a_recs]. rewrite Hrecs. apply count_split.
     - intros n Hn. unfold applies. rewrite (HX n Hn). reflexivity.
-    - intros n Hn. unfold applies. rewrite (HY n Hn). reflexivity. }
+    - intros n Hn. apply not_checking_applies. exact (HY n Hn). }
   assert (Hrep : exists l, d_report PChecking d1 = Some l /\ Permutation l X).
   { eexists. split; [apply report_spec; assumption|].
     eapply perm_trans; [apply perm_filter; exact HP|]. subst a1. cbn [a_recs]. rewrite Hrecs, filter_app.
     rewrite (filter_all _ X), (filter_none _ Y), app_nil_r; [reflexivity| |].
-    - intros n Hn. unfold applies. rewrite (HY n Hn). reflexivity.
+    - intros n Hn. apply not_checking_applies. exact (HY n Hn).
     - intros n Hn. unfold applies. rewrite (HX n Hn). reflexivity. }
   destruct Hrep as (l & El & Pl).
   destruct (mark_spec d1 HI) as (t' & Em & Fm & Im).
@@ -79,7 +101,7 @@ Proof.
     destruct HR1 as (_ & _ & E1 & E2 & E3). cbn in E1, E2, E3.
     split; [assumption|]. split; [|auto].
     rewrite Fm. eapply perm_trans; [apply Permutation_map; exact HP|]. subst a1. cbn [a_recs].
-    rewrite Hrecs, map_app, (map_demote_enabled Y HY). reflexivity.
+    rewrite Hrecs, map_app, (map_demote_other Y HY). reflexivity.
 Qed.
 
 (* ------------------------------------------------------------------ one test *)
@@ -102,7 +124,7 @@ Lemma one_test w T0 a t rest : Between w T0 a ->
   valid_trace (addrs (pure_recs T0)) (text_of t ++ rest) = true ->
   exists a', Between (fst (run_one w t)) (T0 ++ text_of t) a' /\
              valid_trace (addrs (pure_recs (T0 ++ text_of t))) rest = true /\
-             item_good (1 + allocs T0 + allocs (t_before t)) t (snd (run_one w t)).
+             item_good (1 + allocs P0 + allocs T0 + allocs (t_before t)) t (snd (run_one w t)).
 Proof.
   intros HB HV. unfold text_of in *. rewrite <- app_assoc in HV.
   destruct (outside_ops _ _ _ _ _ HB HV) as (a0 & HB0 & HV0). clear HV.
@@ -114,22 +136,22 @@ Proof.
   set (a1 := mkA (a_recs a0) SChecking (a_stage a0) (a_seq a0)) in *.
   (* the test *)
   destruct (steps_scalars (executed t) (pre_action w0)) as (F & I & E & C & X & D).
-  cbn zeta in *. rewrite <- run_body_spec in F, I, E, C, X, D.
+  cbn zeta in *. rewrite <- inside_spec in F, I, E, C, X, D.
   set (ex := executed t) in *.
-  set (w2 := run_body (pre_action w0) t) in *.
+  set (w2 := fold_left step (t_ipost t) (run_body (fold_left step (t_ipre t) (pre_action w0)) t)) in *.
   cbn [pre_action w_failures w_ignore w_expected w_fc0 w_err w_det] in F, I, E, C, X, D.
   assert (HV1 : valid_trace (addrs (a_recs a1)) (ex ++ rest) = true) by (subst a1; cbn [a_recs]; rewrite Hrecs; assumption).
   destruct (mem_refines ex rest _ _ HR1 HV1) as [HR2 HV2]. rewrite <- D in HR2.
   destruct (aexec_formula ex a1) as (E1 & E2 & E3 & E4). cbn zeta in *.
   set (a2 := fold_left astep ex a1) in *.
   subst a1. cbn [a_recs a_period a_stage a_seq] in E1, E2, E3, E4. rewrite Hs, Hq, Hrecs in E1.
-  set (seq1 := 1 + allocs T1) in *.
+  set (seq1 := 1 + allocs P0 + allocs T1) in *.
   set (X1 := rev (nodes SChecking 0 seq1 ex)) in *.
   set (Y1 := filter (notfreed ex) (pure_recs T1)) in *.
   assert (HX1 : forall n, In n X1 -> n_period n = SChecking).
   { intros n Hn. subst X1. rewrite <- in_rev in Hn. eapply nodes_period; eassumption. }
-  assert (HY1 : forall n, In n Y1 -> n_period n = SEnabled).
-  { intros n Hn. subst Y1. apply filter_In in Hn. eapply pure_enabled; apply Hn. }
+  assert (HY1 : forall n, In n Y1 -> n_period n <> SChecking).
+  { intros n Hn. subst Y1. apply filter_In in Hn. eapply pure_not_checking; apply Hn. }
   assert (Herr2 : w_err w2 = false) by congruence.
   destruct (post_spec w2 a2 X1 Y1 HR2 E1 HX1 HY1 Herr2) as (d3 & rep & Epost & Prep & HR3).
   cbn zeta in Epost. rewrite I, E, C, F, Hi, He in Epost. cbn [orb] in Epost.
@@ -154,7 +176,7 @@ Proof.
   - subst T1. rewrite <- app_assoc in *.
     rewrite <- Hmap. rewrite addrs_app, addrs_map_demote, <- addrs_app, <- E1. assumption.
   - unfold item_good. fold ex.
-    replace (1 + allocs T0 + allocs (t_before t)) with seq1 by (subst seq1 T1; rewrite allocs_app; lia).
+    replace (1 + allocs P0 + allocs T0 + allocs (t_before t)) with seq1 by (subst seq1 T1; rewrite allocs_app; lia).
     fold L.
     destruct (verdict ex L) eqn:Ev; cbn [ti_fail ti_leak ti_noleaks ti_many ti_total ti_entries w_failures].
     + unfold verdict in Ev. apply andb_true_iff in Ev. destruct Ev as [Ev _]. apply andb_true_iff in Ev. destruct Ev as [Ev _].
@@ -167,3 +189,5 @@ Proof.
       * rewrite <- (len_map ent). unfold len. rewrite (Permutation_length PL). reflexivity.
     + repeat split; try reflexivity. lia.
 Qed.
+
+End Pre.
